@@ -120,6 +120,10 @@ func ownership(c *wk.Ctx, i int) {
 		return
 	}
 	db3.Close()
+	if n, first := st.UnownedOps(); n > 0 {
+		c.Violation(i, "storage-used-without-owning-it", fmt.Sprintf("%d storage operations were performed while the storage lock was not held, first: %s", n, first), nil)
+		return
+	}
 	// the real file storage, in-process and from a second process
 	if i%25 == 0 {
 		dir, err := os.MkdirTemp("", "verif-c18-")
@@ -660,6 +664,10 @@ func afterClose(c *wk.Ctx, i int) {
 	}
 	if st.IsLocked() {
 		c.Violation(i, "still-locked-after-close", "the storage is still locked after Close", wit)
+		bad = true
+	}
+	if n, first := st.UnownedOps(); n > 0 {
+		c.Violation(i, "storage-used-without-owning-it", fmt.Sprintf("%d storage operations were performed while the storage lock was not held (Close released the lock before it was done with the files), first: %s", n, first), wit)
 		bad = true
 	}
 	if !bad {
